@@ -21,6 +21,7 @@ EXPLANATION = (
     "_run_command equal RESERVED_ENV_VARS and are assigned after the overrides; the clean tool translates on the way "
     "in and back on the way out. Does not decide the arithmetic of translate for all '..'/absolute/nested combinations. "
     'Also (R-C20-6): translate/translate_back compute root-relative paths with relpath on normalised paths, never by cutting a string prefix.'
+    ' Also: R-C20-8 both working-directory arms of translate() relate a relative path to the project root (a step always receives a relative HERE).'
 )
 ASSUMPTIONS = ["Path.normpath and Path.relpath behave like os.path.normpath / os.path.relpath"]
 
